@@ -60,4 +60,8 @@ package historyprunner
 //@   assigns l1HeadRead, heightRead, calls_retentionFloorWithMinAge, arg_retentionFloorWithMinAge_database, arg_retentionFloorWithMinAge_pivot, calls_setupBeforeStager, arg_setupBeforeStager_database, arg_setupBeforeStager_oldestBlockKept
 //@   callsite retentionFloorWithMinAge@*: pivot_confirmed_on_l1: !m.floorPinned && $2 <= l1HeadRead && $2 <= heightRead && ($2 == l1HeadRead || $2 == heightRead) && $2 >= m.retainedBlocks
 //@   callsite setupBeforeStager@*: pinned_cutoff_used: m.floorPinned && $2 == m.oldestBlockKept
+// A cutoff computed by this run is above genesis before anything is wiped: a floor of 0 means the whole
+// chain is inside the retention window (defect F23, fixed: with min(L1 head, height) == retained blocks
+// the floor 0 went on to wipe every reverse lookup and then failed at block floor-1 = 2^64-1).
+//@   callsite setupBeforeStager@*: something_below_the_cutoff: $2 > 0 || old(m.floorPinned)
 //@   ensures pinned_cutoff_kept: old(m.floorPinned) ==> m.oldestBlockKept == old(m.oldestBlockKept) || calls_setupBeforeStager != old(calls_setupBeforeStager)
